@@ -156,9 +156,11 @@ func (p *Permission) IsAllowed(hash util.Uint160, m *Manifest, method string) bo
 		}
 	case PermissionGroup:
 		contractG := p.Contract.Group()
-		return slices.ContainsFunc(m.Groups, func(manifestG Group) bool {
+		if !slices.ContainsFunc(m.Groups, func(manifestG Group) bool {
 			return contractG.Equal(manifestG.PublicKey)
-		})
+		}) {
+			return false
+		}
 	default:
 		panic(fmt.Sprintf("unexpected permission: %d", p.Contract.Type))
 	}
